@@ -454,13 +454,19 @@ fn parse_matched_braces_or_ending_semi(input: ParseStream) -> syn::Result<TokenS
         use proc_macro2::TokenTree;
 
         let mut rest = *cursor;
+        let start_span = cursor.span();
 
         while let Some((tt, next)) = rest.token_tree() {
             match &tt {
                 TokenTree::Group(group) => {
-                    let is_brace = group.delimiter() == Delimiter::Brace;
+                    let ends_here = group.delimiter() == Delimiter::Brace
+                        // what a `macro_rules!` fragment captured as a whole (`$i:item`, the `$b:block` of a function)
+                        // comes wrapped in an invisible group: it has neither a brace nor a `;` of its own on this level
+                        || (group.delimiter() == Delimiter::None
+                            && tokens.is_empty()
+                            && !group.stream().is_empty());
                     tokens.extend(std::iter::once(tt));
-                    if is_brace {
+                    if ends_here {
                         return Ok((tokens, next));
                     }
                 }
@@ -477,10 +483,7 @@ fn parse_matched_braces_or_ending_semi(input: ParseStream) -> syn::Result<TokenS
             }
             rest = next;
         }
-        Err(syn::Error::new(
-            proc_macro2::Span::call_site(),
-            "Read past the end",
-        ))
+        Err(syn::Error::new(start_span, "Read past the end"))
     })?;
 
     while input.peek(syn::token::Semi) {
